@@ -17,6 +17,21 @@ fixed = "| property | repair commit (subject) | what failed before |\n|---|---|-
     f"| {e.get('property')} | {str(e.get('commit_subject', e.get('commit',''))).replace('|','/')} | {str(e.get('what_failed','')).replace('|','/')[:300]} |" for e in kf.get("fixed", [])) + "\n"
 finds = "| property | marker | call site | witness | what fails |\n|---|---|---|---|---|\n" + "\n".join(
     f"| {e.get('property')} | {e.get('marker')} | {str(e.get('call_site','')).replace('|','/')} | {str(e.get('witness_input','')).replace('|','/')[:120]} | {str(e.get('what_fails','')).replace('|','/')[:300]} |" for e in kf.get("findings", [])) + "\n"
+status_rows = []
+for pp in sorted(glob.glob(os.path.join(ROOT, "props", "C*.json"))):
+    m = json.load(open(pp))
+    if not m.get("claimed", True):
+        continue
+    pid = m["id"]
+    ev = {}
+    try:
+        ev = json.load(open(os.path.join(ROOT, "evidence", pid + ".json")))
+    except Exception:
+        pass
+    cov = ev.get("coverage", {})
+    status_rows.append(f"| {pid} | {cov.get('discharged','?')}/{cov.get('obligations','?')} | {cov.get('evaluations','?')} | {ev.get('wall_s','?')} | {str(m.get('level_text','')).replace('|','/')[:600]} |")
+status = ("| property | theorems discharged (last run) | correspondence cases (last run, tier as run) | wall s | what the check establishes |\n|---|---|---|---|---|\n"
+          + "\n".join(status_rows) + "\n")
 p = os.path.join(ROOT, "DESIGN.md")
 s = open(p).read()
 block = ("<!-- GENERATED:BEGIN -->\n## Appendix I. Seeded changes (written by independent sub-agents that saw only the property text) and what caught them\n\n"
@@ -25,6 +40,7 @@ block = ("<!-- GENERATED:BEGIN -->\n## Appendix I. Seeded changes (written by in
          + seed_md +
          "\n## Appendix J. Genuine defects of go-mc repaired by `fix:` commits (from known_findings.json, `fixed` entries — they suppress nothing)\n\n" + fixed +
          "\n## Appendix K. Known findings not repaired (deviation markers)\n\n" + (finds if kf.get("findings") else "None at present.\n") +
+         "\n## Appendix L. Status per property (from props/*.json and the last evidence files)\n\n" + status +
          "<!-- GENERATED:END -->\n")
 if "<!-- GENERATED:BEGIN -->" in s:
     s = re.sub(r"<!-- GENERATED:BEGIN -->.*<!-- GENERATED:END -->\n", lambda m: block, s, flags=re.S)
